@@ -215,6 +215,43 @@ func enumerate(ctx *seq.Ctx) {
 			return key, msg
 		})
 	})
+	// field roles of the fluentdForward serializer: every subset of {environment, hidden, rewritten} for each of two
+	// fields (64 combinations). Each list entry is valid on its own; the combination may be accepted or rejected by the
+	// loader, but what it accepts must instantiate and process records (two sites that each look fine alone).
+	ctx.Group("roles/fluentd-field-roles")
+	roleFields := []string{"log", "host"}
+	for ra := 0; ra < 8; ra++ {
+		for rb := 0; rb < 8; rb++ {
+			roles := []int{ra, rb}
+			env, hidden, rewrite := []string{"app"}, []string{"pid"}, ""
+			for i, f := range roleFields {
+				if roles[i]&1 != 0 {
+					env = append(env, f)
+				}
+				if roles[i]&2 != 0 {
+					hidden = append(hidden, f)
+				}
+				if roles[i]&4 != 0 {
+					rewrite += "    " + f + ":\n      - type: unescape\n"
+				}
+			}
+			outYAML := "\ntype: fluentdForward\nserialization:\n  environmentFields: [" + strings.Join(env, ", ") + "]\n  hiddenFields: [" + strings.Join(hidden, ", ") + "]\n"
+			if rewrite != "" {
+				outYAML += "  rewriteFields:\n" + rewrite
+			}
+			outYAML += "messageMode: PackedForward\nupstream:\n  address: localhost:24224\n  tls: false\n  secret: guess\n  maxDuration: 30m\n"
+			text := skeleton(parts{output: outYAML})
+			id := fmt.Sprintf("roles/log=%d/host=%d", ra, rb)
+			ctx.Case(id, true, text, func() (string, string) {
+				outcome, key, msg := evaluate(text, "", opt)
+				bump(ctx, "outcome/roles/"+outcome)
+				if outcome == outRejected {
+					return "", ""
+				}
+				return key, msg
+			})
+		}
+	}
 }
 
 // onlyCase is the case id of a replay (-case / -replay), read from the command line so that replaying one case does not
